@@ -33,8 +33,15 @@ BOUNDS = {
     "thorough": "as quick plus positional passing, Python-list arguments, arrays of length 3 and of shape (2,2), and two instances "
                 "evaluated alternately",
 }
+BOUNDS["quick"] += ("; plus integer-typed explicit parameters for every family; plus CONCRETE runs (not solver-based) at "
+                    "parameter magnitudes a factor 10 outside those ranges and tail probabilities 1e-12 .. 1-1e-9 against "
+                    "the scipy kernel at the documented argument tuple")
+BOUNDS["thorough"] += "; the same integer-typed and concrete extreme-parameter obligations"
 OUTSIDE = [
     "numerical accuracy of scipy.stats (kernels are uninterpreted functions constrained by their contract)",
+    "an implementation that evaluates a family's formula itself instead of calling the scipy kernel cannot be matched "
+    "with the uninterpreted kernel: the symbolic run then answers 'not decided' (exit 3), only the concrete "
+    "extreme-parameter runs judge it",
     "formula-level identity for scipy's own implementation of each family: the documented scipy standard form is "
     "taken as scipy's contract, so 'documented formula' is decided as 'documented argument mapping'",
     "floating-point rounding of exp/log/sqrt in the mapping (Real mode)",
